@@ -24,6 +24,7 @@ type c15Case struct {
 	Pre    []hOp // history before the faulted run (edits and fault-free runs)
 	Flags  int   // flags of the faulted run(s)
 	Faults []faultSpec
+	Native bool `json:",omitempty"` // faulted and recovery runs on gopki's NativeFs in a temp directory
 }
 
 func (f faultSpec) fn() core.Fault {
@@ -114,7 +115,15 @@ func c15Faulted(c c15Case, w *World, d *core.Dir) *core.Failure {
 		return fmt.Sprintf("flags=%05b faults=%+v pre=%d ops\n%v", c.Flags, c.Faults, len(c.Pre), w.Texts())
 	}
 	for i, f := range c.Faults {
-		res := core.RunFault(d, c.Flags, f.fn())
+		var res core.RunResult
+		if c.Native {
+			var err error
+			if res, err = core.RunNativeFault(d, c.Flags, f.fn()); err != nil {
+				return nil
+			}
+		} else {
+			res = core.RunFault(d, c.Flags, f.fn())
+		}
 		if res.Panic != "" {
 			return core.Failf("C15/panic", "faulted run %d panicked: %s\n%s", i, res.Panic, desc())
 		}
@@ -124,7 +133,15 @@ func c15Faulted(c c15Case, w *World, d *core.Dir) *core.Failure {
 		}
 	}
 	// recovery: default flags, fresh database object
-	res := core.Run(d, core.FlagDefault)
+	var res core.RunResult
+	if c.Native {
+		var err error
+		if res, err = core.RunNative(d, core.FlagDefault); err != nil {
+			return nil
+		}
+	} else {
+		res = core.Run(d, core.FlagDefault)
+	}
 	if res.Panic != "" {
 		return core.Failf("C15/panic", "recovery run panicked: %s\n%s", res.Panic, desc())
 	}
@@ -141,7 +158,7 @@ func c15Faulted(c c15Case, w *World, d *core.Dir) *core.Failure {
 func TestC15(t *testing.T) {
 	r := core.Start(t, "C15")
 	defer r.Finish()
-	r.Rule = "fault enumeration through a filesystem.Filesystem wrapper that counts WriteFile calls: hierarchies of up to 5 entities / 3 tiers; history = optional populating run, 0-2 edits (subject of an entity at any tier, extension list, profile, deleted artifact) and a faulted run with default flags, generate-all or -m -c -o; a fault-free dry run of that last run records its N writes and their contents, then for EVERY write index k < N and EVERY outcome in {error returned without writing; torn write (prefix, then process death) and torn write with error returned, cut at every PEM block boundary (before BEGIN, before END, END without newline, after the block), inside and right after the hash line, at 0 bytes and at three rapid-drawn interior offsets; complete write then death} the faulted run is replayed on a copy, followed by a default-flag run on a fresh database object. Oracle: an injected error makes the run fail; the recovery run succeeds; every entity then has certificate and key material, all chains verify as in C01, certificates equal a from-scratch run modulo keys/serials, and a further run is a no-op. Thorough also injects a second fault into the recovery run. Non-trivial = fault at a write that is not the last one of the run, or on the artifact of an entity that signs others; distinct by (history, k, outcome, cut)."
+	r.Rule = "fault enumeration through filesystem.Filesystem wrappers that count WriteFile calls (an in-memory one with a logical clock, and for one plan in ten a wrapper in front of gopki's own NativeFs in a temp directory, where a torn write is the real WriteFile called with a prefix): hierarchies of up to 5 entities / 3 tiers; history = optional populating run, 0-2 edits (subject of an entity at any tier, extension list, profile, deleted artifact) and a faulted run with default flags, generate-all or -m -c -o; a fault-free dry run of that last run records its N writes and their contents, then for EVERY write index k < N and EVERY outcome in {error returned without writing; torn write (prefix, then process death) and torn write with error returned, cut at every PEM block boundary (before BEGIN, before END, END without newline, after the block), inside and right after the hash line, at 0 bytes and at three rapid-drawn interior offsets; complete write then death} the faulted run is replayed on a copy, followed by a default-flag run on a fresh database object. Oracle: an injected error makes the run fail; the recovery run succeeds; every entity then has certificate and key material, all chains verify as in C01, certificates equal a from-scratch run modulo keys/serials, and a further run is a no-op. Thorough also injects a second fault into the recovery run. Non-trivial = fault at a write that is not the last one of the run, or on the artifact of an entity that signs others; distinct by (history, k, outcome, cut)."
 	r.Assumptions = []string{"a crash is modelled as a prefix of the intended file content at the WriteFile API (what truncate-then-write produces); storage-level reordering is out of reach", "single process death per run; database objects are never reused after a fault"}
 	wrap := func(c c15Case) *core.Failure { return checkC15(c) }
 	core.Register(r, "fault", wrap)
@@ -166,6 +183,7 @@ func TestC15(t *testing.T) {
 			c.Pre = append(c.Pre, op)
 		}
 		c.Flags = rapid.SampledFrom([]int{core.FlagDefault, core.FlagDefault, core.FlagAll, core.FlagDefault | core.FlagNewer}).Draw(t, "faultflags")
+		c.Native = rapid.IntRange(0, 9).Draw(t, "native") == 0
 		if n := len(c.Pre); n > 0 && c.Pre[n-1].Kind == "run" && c.Flags != core.FlagAll {
 			// make sure the faulted run has something to do: edit an entity at a random tier
 			e := h.Init.Ents[rapid.IntRange(0, len(h.Init.Ents)-1).Draw(t, "edited")]
@@ -230,7 +248,11 @@ func TestC15(t *testing.T) {
 				if k < len(m.Writes)-1 || signs[wr.Path] {
 					key = fmt.Sprintf("%v|%+v|%d|%+v", p.C.Init.Texts(), p.C.Pre, p.C.Flags, c.Faults)
 				}
-				r.Case(key, "outcome:"+f.Outcome, fmt.Sprintf("writes:%d", len(m.Writes)))
+				backend := "backend:memfs"
+				if c.Native {
+					backend = "backend:native"
+				}
+				r.Case(key, "outcome:"+f.Outcome, fmt.Sprintf("writes:%d", len(m.Writes)), backend)
 				if fl := c15Faulted(c, &w, d); fl != nil {
 					r.Sample("failing", c)
 					r.Report("fault", c, fl)
